@@ -308,7 +308,11 @@ def main(argv):
                 for pb in algebra.PURITY_BREAKS:
                     rep.violation('%s:input-mutated' % pid, '%s: %s' % (pb['case'], pb['what']),
                                   dict(pb['data'], kind='purity'))
+                for pb in algebra.ALIAS_BREAKS:
+                    rep.violation('%s:aliased:%s' % (pid, pb['data'].get('op')), '%s: %s' % (pb['case'], pb['what']),
+                                  dict(pb['data'], kind='purity'))
                 del algebra.PURITY_BREAKS[:]
+                del algebra.ALIAS_BREAKS[:]
             else:
                 algebra.report_purity(rep)
         finally:
